@@ -378,7 +378,7 @@ var rfcLeafText = map[xmlName]bool{
 }
 
 // checkSchema compares every wire struct selected by keep with the oracle.
-func checkSchema(p *Program, r *RuleResult, keep func(*xmlStruct) bool, strictCard func(*xmlStruct) bool) {
+func checkSchema(p *Program, r *RuleResult, keep func(*xmlStruct) bool, strictCard func(*xmlStruct) bool, strictOrder func(*xmlStruct) bool) {
 	for _, xs := range p.wireStructs() {
 		if !keep(xs) {
 			continue
@@ -548,8 +548,21 @@ func checkSchema(p *Program, r *RuleResult, keep func(*xmlStruct) bool, strictCa
 				if !known {
 					continue
 				}
-				r.Role("child-order")
 				ok := rk >= last
+				if strictOrder == nil || !strictOrder(xs) {
+					// RFC 4918 §14 / RFC 4791 §1.1 / RFC 6352 §3: "element
+					// ordering is irrelevant unless explicitly stated" — a
+					// deviation is only worth a note unless the property
+					// itself names child order.
+					if !ok {
+						r.Note("observation (not a violation of the property): %s is written after <%s> although the DTD fragment of <%s> in %s lists <%s> first; the RFCs declare element ordering irrelevant", f.Label, lastName, xs.Name, spec.Src, w)
+					}
+					if rk > last {
+						last, lastName = rk, w.String()
+					}
+					continue
+				}
+				r.Role("child-order")
 				r.Ob(ok)
 				if !ok {
 					r.Violation("order|"+xs.Name.String()+"|"+w.String(), pos, fmt.Sprintf("%s is written after <%s> although the content model of <%s> in %s puts <%s> first (%s): a reader that validates the RFC's sequence rejects the document", f.Label, lastName, xs.Name, spec.Src, w, childNames(spec)), nil)
